@@ -244,6 +244,65 @@ func nilnessAt(v ssa.Value, at *ssa.BasicBlock, depth int) nilness {
 	return nilUnknown
 }
 
+// Comparison normalises a branch condition to `x op y`: negations are folded
+// into the operator, and when `left` is one of the operands it is put on the
+// left (mirroring the operator). ok is false if v is not a comparison.
+func Comparison(v ssa.Value, left ssa.Value) (x ssa.Value, op token.Token, y ssa.Value, ok bool) {
+	neg := false
+	for {
+		u, isU := v.(*ssa.UnOp)
+		if !isU || u.Op != token.NOT {
+			break
+		}
+		v, neg = u.X, !neg
+	}
+	b, isB := v.(*ssa.BinOp)
+	if !isB {
+		return nil, 0, nil, false
+	}
+	x, op, y = b.X, b.Op, b.Y
+	switch op {
+	case token.LSS, token.GTR, token.LEQ, token.GEQ, token.EQL, token.NEQ:
+	default:
+		return nil, 0, nil, false
+	}
+	if neg {
+		op = map[token.Token]token.Token{token.LSS: token.GEQ, token.GEQ: token.LSS, token.GTR: token.LEQ, token.LEQ: token.GTR, token.EQL: token.NEQ, token.NEQ: token.EQL}[op]
+	}
+	if left != nil && y == left && x != left {
+		x, y = y, x
+		op = map[token.Token]token.Token{token.LSS: token.GTR, token.GTR: token.LSS, token.LEQ: token.GEQ, token.GEQ: token.LEQ, token.EQL: token.EQL, token.NEQ: token.NEQ}[op]
+	}
+	return x, op, y, true
+}
+
+// LoopCondition returns the comparison that holds on the edge of ifi that
+// stays in the loop (the successor from which ifi's block is reachable
+// again), oriented with `left` on the left. ok is false if ifi does not
+// control a loop or is not a comparison.
+func LoopCondition(ifi *ssa.If, left ssa.Value) (x ssa.Value, op token.Token, y ssa.Value, ok bool) {
+	b := ifi.Block()
+	stays := func(s *ssa.BasicBlock) bool {
+		if s == b {
+			return true
+		}
+		_, r := Reach(Node{B: s, I: -1}, func(n Node) bool { return n.B == b }, Query{})
+		return r
+	}
+	t, f := stays(b.Succs[0]), stays(b.Succs[1])
+	if t == f {
+		return nil, 0, nil, false
+	}
+	x, op, y, ok = Comparison(ifi.Cond, left)
+	if !ok {
+		return
+	}
+	if f {
+		op = map[token.Token]token.Token{token.LSS: token.GEQ, token.GEQ: token.LSS, token.GTR: token.LEQ, token.LEQ: token.GTR, token.EQL: token.NEQ, token.NEQ: token.EQL}[op]
+	}
+	return
+}
+
 // KnownNonNil reports whether v is certainly non-nil while control is in block at.
 func KnownNonNil(v ssa.Value, at *ssa.BasicBlock) bool { return nilnessAt(v, at, 0) == nonNil }
 
@@ -282,6 +341,32 @@ func feasibleBranches(b, pred *ssa.BasicBlock) (allowT, allowF bool) {
 			return x, b
 		}
 		return ph.Edges[idx], pred
+	}
+	// a loop-carried value that this trip round the loop did not change (the phi's
+	// incoming value on the edge we came through is the phi itself) decides the
+	// test the way it was decided when the loop body was entered
+	if pred != nil && b.Dominates(pred) && b != pred {
+		var ph *ssa.Phi
+		switch x := v.(type) {
+		case *ssa.Phi:
+			ph = x
+		case *ssa.BinOp:
+			if p, ok := x.X.(*ssa.Phi); ok {
+				if _, isC := x.Y.(*ssa.Const); isC {
+					ph = p
+				}
+			}
+		}
+		if ph != nil && ph.Block() == b {
+			if inc, _ := incoming(ph); inc == ssa.Value(ph) {
+				switch {
+				case b.Succs[0] == pred || b.Succs[0].Dominates(pred):
+					return true, false
+				case b.Succs[1] == pred || b.Succs[1].Dominates(pred):
+					return false, true
+				}
+			}
+		}
 	}
 	decided, val := false, false
 	switch x := v.(type) {
